@@ -27,7 +27,7 @@ ALL_KINDS = ["io", "timer", "tcp", "udp", "lst", "acc", "pkt", "peer", "file", "
 BUGS = dict(
     BUG_ConnectLeak="FALSE", BUG_PacketBindLeak="FALSE", BUG_PeerLeak="FALSE", BUG_WsLeak="FALSE",
     BUG_ListenerNoGuard="FALSE", BUG_PacketNoGuard="FALSE", BUG_TimerRevive="FALSE",
-    BUG_AdapterRawClose="FALSE", BUG_EarlyDeregister="FALSE", BUG_WsResetLeak="FALSE", BUG_ForeignDeregister="FALSE",
+    BUG_AdapterRawClose="FALSE", BUG_EarlyDeregister="FALSE", BUG_CloseKeepsFd="FALSE", BUG_WsResetLeak="FALSE", BUG_ForeignDeregister="FALSE",
     BUG_SocketNonblockLeak="TRUE", BUG_AcceptLeak="TRUE")
 
 BEFORE_REPAIR = {k: "TRUE" for k in BUGS}
@@ -213,7 +213,7 @@ def run(ck):
                 # only the registry defects switched on: with everything on, the stale Close of an adapter is already
                 # rejected as a foreign close and the history never gets as far as the collection
                 consts2.update(BUGS)
-                consts2.update(BUG_ForeignDeregister="TRUE", BUG_EarlyDeregister="TRUE")
+                consts2.update(BUG_ForeignDeregister="TRUE", BUG_EarlyDeregister="TRUE", BUG_CloseKeepsFd="TRUE")
             c2 = vlib.cfg_with(sw, "FdTableImpl_mc.cfg", consts2, outname="gen_before_%d.cfg" % idx, drop=["ACTION_CONSTRAINT"],
                                add=["ACTION_CONSTRAINT EmitBad"])
             r2 = vlib.tlc(sw, "FdTableImpl", c2, workers=2, timeout=900)
